@@ -196,4 +196,20 @@ PROPS['C20'].update({
     'level_note': 'graphviz.Digraph rendering one statement per call is an assumed external contract (parsed back on the bounded side); LatInv assumed.',
 })
 
+UNIQUE = ['tools.Unique.' + n for n in ('add', 'discard', 'replace', 'move', '_fromargs', 'copy', '__contains__', '__len__', '__iter__')] + \
+    ['stdlib.MutableSet.remove', 'stdlib.MutableSet.__ior__']
+PROPS['C13'].update({
+    'units': UNIQUE + ['lemma.fold_add'] + ['definitions.' + n for n in (
+        '__setitem__', '__setitem__.int', 'add_object', 'add_property', 'set_object', 'set_property', 'remove_object', 'remove_property',
+        'move_object', 'move_property', 'rename_object', 'rename_property')],
+    'level': 'other',
+    'proved_part': 'per-operation contracts against the ordered-table view (two duplicate-free name sequences, a set of true cells) for cell assignment, '
+                   'add/set/remove/rename/move of objects and properties, and for the tools.Unique methods and stdlib mixins they use: view after = model(view before), '
+                   'well-formedness and no-residue invariant preserved, rejected calls raise and leave the view unchanged; all histories follow by induction on the history',
+    'bounded_part': 'remove_empty_*, in-place union/intersection, Definition.__init__/__eq__ ("equals a fresh definition"), lemma fold_dedup (assumed); exhaustive per-operation model check over a small universe, random histories',
+    'technique': 'contract-based deductive verification: data structure against an abstract view (SEQ/SET theories), one contract per mutator, VCs from the real AST; bounded model-based stand-in for the rest',
+    'level_text': '12 mutator entry points and 11 container methods proved for all states and arguments; the remaining operations are bounded.',
+    'level_note': 'Assumes the list/set builtin contracts (algebraic SEQ theory validated against CPython), A-HEAP, and lemma fold_dedup (validated by enumeration).',
+})
+
 NOT_APPLICABLE = {}
